@@ -245,7 +245,7 @@ def run(report, tier):
     pre_f = G.PRELUDE + "".join(G.tables(q, "f64") for q in catalogue.CATALOGUE)
     for q in catalogue.ASTRO:
         pre_f += G.tables(q, "f64").replace("const %s_" % q.name.upper(), "const A%s_" % q.name.upper())
-    synth = [synthdefs.PILE, synthdefs.STACK, synthdefs.TRI, synthdefs.TARIFF, synthdefs.DOSE, synthdefs.CHARGE, synthdefs.BUCKET, synthdefs.PRESSURE]
+    synth = list(synthdefs.ALL)
     pre_f += synthdefs.SYNTH_RS + "".join(G.tables(q, "f64") for q in synth)
     kf = KaniCrate("c09f", "f64", astro=True, extra_src=pre_f)
     for q in synth:
